@@ -17,9 +17,12 @@ LEVEL = "model_checking"
 PARAMS = ["p", "q", "r"]
 
 
-def program(cs, variant="start"):
+def program(cs, variant="start", pres=None):
     out = []
     for i, c in enumerate(cs, start=1):
+        pr = pres[i - 1] if pres else {"via": False, "sp": 0}
+        action = "XAction(v=%d, w=2)" % c["act"] if not pr["sp"] else "XAction(w=2, v=%d)" % c["act"]
+        alt = " or Zq()" if pr["via"] else ""
         mention = PARAMS[: 3 - c["k"]]
         args = ["%s=1" % m for m in mention]
         if not c["fits"]:
@@ -29,18 +32,18 @@ def program(cs, variant="start"):
                 args = None                        # match a different event
         deco = "" if c["loop"] == "p" else '@loop("%s")\n' % ("NEW" if c["loop"] == "N" else c["loop"])
         prio = "  priority 0.5\n" if c["half"] else ""
-        match = "  match E(%s)\n" % ", ".join(args) if args is not None else "  match Other()\n"
+        match = "  match E(%s)%s\n" % (", ".join(args), alt) if args is not None else "  match Other()%s\n" % alt
         if c.get("doomed"):
             # started by a guard flow that ends a few internal steps after the event: the competitor has matched the event
             # and reached its action, but is stopped before the actions of this event are decided
-            out.append("%sflow c%d\n%s  start XAction(v=%d)\n  match W%d()\n" % (deco, i, match, c["act"], i))
+            out.append("%sflow c%d\n%s  start %s\n  match W%d()\n" % (deco, i, match, action, i))
             out.append("flow g%d\n  start c%d\n  match E()\n  await noop\n" % (i, i))
         elif c.get("wrap"):
             # the event is matched by a helper flow; the competitor waits for the helper to finish
             out.append("flow h%d\n%s" % (i, match))
-            out.append("%sflow c%d\n%s  await h%d\n  start XAction(v=%d)\n  match W%d()\n" % (deco, i, prio, i, c["act"], i))
+            out.append("%sflow c%d\n%s  await h%d\n  start %s\n  match W%d()\n" % (deco, i, prio, i, action, i))
         else:
-            out.append("%sflow c%d\n%s%s  start XAction(v=%d)\n  match W%d()\n" % (deco, i, prio, match, c["act"], i))
+            out.append("%sflow c%d\n%s%s  start %s\n  match W%d()\n" % (deco, i, prio, match, action, i))
     main = "flow main\n" + "".join("  %s %s%d\n" % ("activate" if variant == "activate" and not c.get("doomed") else "start", "g" if c.get("doomed") else "c", i)
                                     for i, c in enumerate(cs, start=1)) + "  match Never()\n"
     noop = "flow noop\n  $done = 1\n\n" if any(c.get("doomed") for c in cs) else ""
@@ -76,8 +79,8 @@ def _worker(chunk):
     sm = colang2.sm
     colang2.install_scripted_random()
     out = []
-    for (k, cs, variant) in chunk:
-        src = program(cs, variant)
+    for (k, cs, variant, pres) in chunk:
+        src = program(cs, variant, pres)
         try:
             base = colang2.start_main(colang2.compile_program(src))
         except Exception as ex:
@@ -110,14 +113,16 @@ def run(ctx):
     for (n, parts, part) in fam:
         cfg = 'CONSTANTS Mode = "emit"\nN = %d\nPart = %d\nParts = %d\nSPECIFICATION Spec\nINVARIANT Emit\n' % (n, part, parts)
         r = tlc.run("MC_Resolve.tla", cfg, ctx.sub("emit%d" % n), spec_dirs=[SPEC_DIR], workers=1, timeout=3000)
-        got = [p["cs"] for p in r.printed if "cs" in p]
+        got = [(p["cs"], p["pres"]) for p in r.printed if "cs" in p]
         ctx.log("TLC: %d competitor families with %d flows (partition %d/%d)" % (len(got), n, part, parts))
         scripts += got
         states += r.distinct
         trans += r.generated
     work = []
+    pres = [p for (_, p) in scripts]
+    scripts = [c for (c, _) in scripts]
     for k, cs in enumerate(scripts):
-        work.append((k, cs, "activate" if k % 5 == 0 else "start"))
+        work.append((k, cs, "activate" if k % 5 == 0 else "start", pres[k]))
     chunks = [work[i:i + 80] for i in range(0, len(work), 80)]
     res = {}
     with mp.Pool(16) as pool:
@@ -151,7 +156,7 @@ def run(ctx):
             cs = scripts[k]
             ctx.violation("resolution", "competitors %s, tie-break pick %d: outcome %s, started actions %s" % (
                 [{x: c[x] for x in ("k", "half", "loop", "act", "fits", "wrap", "doomed")} for c in cs], o["pick"], o["outcome"], o["starts"]),
-                {"cs": cs, "pick": o["pick"], "observed": {"outcome": o["outcome"], "starts": o["starts"]}, "source": res[k][2],
+                {"cs": cs, "pres": pres[k], "pick": o["pick"], "observed": {"outcome": o["outcome"], "starts": o["starts"]}, "source": res[k][2],
                  "sig": {"n": len(cs), "loops": sorted(set(c["loop"] for c in cs)), "same_action": len(set(c["act"] for c in cs)) < len(cs)}})
     # ColangSM: every conflict resolution of every call over all bounded histories satisfies C05S (winner not beaten on the
     # padded score chains, identical events co-win, every other competitor is stopped or sent to its failure handler, one
@@ -192,6 +197,6 @@ def run(ctx):
 def replay(ctx, rec):
     case = rec["case"]
     print(case.get("source"))
-    res = _worker([(0, case["cs"], "start")])[0]
+    res = _worker([(0, case["cs"], "start", case.get("pres"))])[0]
     print(res[1], res[2])
     return False
